@@ -526,6 +526,7 @@ inline rc::Gen<Workload> genWorkload(int tier)
                     op.dev = *rc::gen::element<uint16_t>(0, 1, 2);
                     op.iface = *rc::gen::element<uint32_t>(0, 1, 2);
                     op.viaDecoder = *range<uint8_t>(0, 1);
+                    op.content = *rc::gen::weightedElement<uint8_t>({{6, 0}, {2, 1}, {1, 2}, {1, 3}});
                     w.status.push_back(op);
                 }
                 break;
